@@ -64,21 +64,21 @@ const unsigned long StatesClassification::getNumberOfStates() const
 BlockNumber StatesClassification::getBlockNumber(FockState in) const
 {
     if ( Status < Computed ) { ERROR("StatesClassification is not computed yet."); throw (exStatusMismatch()); };
-    if ( in.to_ulong() > StateSize ) { throw exWrongState(); };
+    if ( in.to_ulong() >= StateSize ) { throw exWrongState(); };
     return StateBlockIndex[in.to_ulong()];
 }
 
 BlockNumber StatesClassification::getBlockNumber(QuantumState in) const
 {
     if ( Status < Computed ) { ERROR("StatesClassification is not computed yet."); throw (exStatusMismatch()); };
-    if ( in > StateSize ) { throw exWrongState(); };
+    if ( in >= StateSize ) { throw exWrongState(); };
     return StateBlockIndex[in];
 }
 
 const InnerQuantumState StatesClassification::getInnerState(FockState state) const
 {
     if ( Status < Computed ) { ERROR("StatesClassification is not computed yet."); throw (exStatusMismatch()); };
-    if ( state.to_ulong() > StateSize ) { throw (exWrongState()); return StateSize; };
+    if ( state.to_ulong() >= StateSize ) { throw (exWrongState()); return StateSize; };
     BlockNumber block = this->getBlockNumber(state);
     for (InnerQuantumState n=0; n<StatesContainer[block].size(); n++ )
       {    
@@ -91,7 +91,7 @@ const InnerQuantumState StatesClassification::getInnerState(FockState state) con
 const InnerQuantumState StatesClassification::getInnerState(QuantumState state) const
 {
     if ( Status < Computed ) { ERROR("StatesClassification is not computed yet."); throw (exStatusMismatch()); };
-    if ( state > StateSize ) { throw (exWrongState()); return StateSize; };
+    if ( state >= StateSize ) { throw (exWrongState()); return StateSize; };
     return this->getInnerState(FockState(IndexSize, state));
 }
 
